@@ -60,33 +60,19 @@ theorem validator_entries_present :
 /-- the translator understood every statement, expression and built-in of every function -/
 theorem validators_translated : validatorProgs.all (fun p => progKnown p.2) = true := by decide +kernel
 
-/-- functions outside the relaxing shape: `IATBatch.isBatchEntryCount` returns (count, error) and consults
-UnequalAddendaCounts for the error while returning the count - a value-returning function that mentions a relaxation
-flag; `IATBatch.verify` and `IATBatch.Validate` call it.  For IAT batches monotonicity is the theorem on the
-hand-written model (`Ach.Props.C15.accept_monotone_iat_batch`); the translated programs are still executed against the
-real `IATBatch.Validate` by the batchvalidate stream. -/
-def relaxExempt : List String := ["IATBatch.isBatchEntryCount", "IATBatch.verify", "IATBatch.Validate"]
-
-/-- C14 along the whole validation path (transitively: every function `File.ValidateWith` can reach is in the list):
-the only function holding a statement that modifies a record is `File.IsADV` (its two repairs of a missing batch
-header / control — the known mutator of `Ach.Props.C14.write_set_census`); an assignment to a field anywhere else
-would be an untranslatable statement and break `validators_translated` -/
-theorem validation_path_effects :
-    (validatorProgs.filter (fun p => hasEffect p.2)).map (·.1) = ["File.IsADV"] := by decide +kernel
-
-/-- every use of a relaxation flag has a relaxing shape -/
-theorem validators_relax_shape :
-    (validatorProgs.filter (fun p => !relaxExempt.contains p.1)).all (fun p => relaxOK p.2) = true := by decide +kernel
+/-- every use of a relaxation flag has a relaxing shape — in every translated function, the IAT ones included
+(`IATBatch.isBatchEntryCount` returns (count, error); its only translated caller discards the count, so it is
+translated as the function returning the error: `…#err`) -/
+theorem validators_relax_shape : validatorProgs.all (fun p => relaxOK p.2) = true := by decide +kernel
 
 /-- C15 for every translated validator — the 26 record validators and the 22 SEC batch validators (`Batch.verify`,
 its helpers, the record validators of every record in the batch, the per-entry SEC rules): acceptance is monotone in
 the relaxation flags (receiver options and `ValidateWith` parameter alike), for every receiver value -/
 theorem record_validators_monotone (name : String) (p : Prog) (hp : (name, p) ∈ validatorProgs)
-    (hx : relaxExempt.contains name = false)
     (c c' : Ctx) (h : CtxLe c c') (ha : run c p = .accept) : run c' p = .accept := by
   have hs := validators_relax_shape
   rw [List.all_eq_true] at hs
-  exact run_mono h p (hs (name, p) (List.mem_filter.mpr ⟨hp, by simp only [hx]; rfl⟩)) ha
+  exact run_mono h p (hs (name, p) hp) ha
 
 /-- C03: an entry accepted by `EntryDetail.Validate` has a non-negative amount that fits its 10-digit field -/
 theorem entry_amount_in_field (c : Ctx) (a : Int) (hroot : c.recv = "") (hf : lookup c.fields "Amount" = .int a)
@@ -131,7 +117,12 @@ options alike, every record carrying the same options; files in which `File.IsAD
 batch header or control are outside the embedding: the run is stuck there, under both option sets) -/
 theorem file_validate_monotone (c c' : Ctx) (h : CtxLe c c')
     (ha : run c v_File_ValidateWith = .accept) : run c' v_File_ValidateWith = .accept :=
-  record_validators_monotone "File.ValidateWith" v_File_ValidateWith (by decide +kernel) (by decide) c c' h ha
+  record_validators_monotone "File.ValidateWith" v_File_ValidateWith (by decide +kernel) c c' h ha
+
+/-- the same for IAT batches: `IATBatch.Validate` (verify, the IAT record validators, the IAT addenda rules) -/
+theorem iat_batch_validate_monotone (c c' : Ctx) (h : CtxLe c c')
+    (ha : run c v_IATBatch_Validate = .accept) : run c' v_IATBatch_Validate = .accept :=
+  record_validators_monotone "IATBatch.Validate" v_IATBatch_Validate (by decide +kernel) c c' h ha
 
 /-! ### the hypotheses are satisfiable, and the flags matter (non-vacuity) -/
 
